@@ -143,7 +143,7 @@ fn lcg(seed: &mut u64) -> u64 {
 
 pub fn scenarios(tier: Tier, seed: i64) -> Vec<Scenario> {
     let mut v = vec![];
-    let (dmax, smax) = if tier == Tier::Quick { (7usize, 4usize) } else { (10, 5) };
+    let (dmax, smax) = if tier == Tier::Quick { (8usize, 4usize) } else { (12, 6) };
     for len in 1..=dmax {
         v.push(Scenario {
             name: format!("C16/direct/len{}", len),
